@@ -15,7 +15,7 @@ pub const RULE: &str = "case = (DNA count matrix of width 1..40 with arbitrary c
 
 pub const REQUIRED: &[&str] = &[
     "type.count", "type.frequency", "type.weight", "type.scoring", "check.involution", "check.definition",
-    "check.commutes", "check.involution_other_base", "class.background_with_null_complementary_pair", "check.mirrored_scores", "check.mirrored_score_position", "score_position.no_lookahead_rows", "score_position.too_few_lookahead_rows", "score_position.window_crosses_column", "class.finite_wildcard_column", "class.neg_inf_cells",
+    "check.commutes", "check.involution_other_base", "class.background_with_null_complementary_pair", "class.position_without_observations", "class.nan_frequencies", "check.hand_built_frequency_rows", "check.mirrored_scores", "check.mirrored_score_position", "score_position.no_lookahead_rows", "score_position.too_few_lookahead_rows", "score_position.window_crosses_column", "class.finite_wildcard_column", "class.neg_inf_cells",
     "class.sequence_with_wildcards", "class.width=1", "class.background_with_wildcard_frequency",
 ];
 
@@ -30,11 +30,16 @@ fn cells_f32(m: &DenseMatrix<f32, <Dna as lightmotif::abc::Alphabet>::K>) -> Vec
 }
 
 fn same_f32(a: f32, b: f32) -> bool {
-    a.to_bits() == b.to_bits() || a == b
+    a.to_bits() == b.to_bits() || a == b || (a.is_nan() && b.is_nan())
+}
+
+/// cell-wise equality that lets NaN equal NaN (0/0 frequencies of an empty position)
+fn same_cells(a: &DenseMatrix<f32, <Dna as lightmotif::abc::Alphabet>::K>, b: &DenseMatrix<f32, <Dna as lightmotif::abc::Alphabet>::K>) -> bool {
+    a.rows() == b.rows() && (0..a.rows()).all(|i| (0..5).all(|j| same_f32(a[i][j], b[i][j])))
 }
 
 fn close(a: f32, b: f32) -> bool {
-    if a == b {
+    if a == b || (a.is_nan() && b.is_nan()) {
         return true;
     }
     if !a.is_finite() || !b.is_finite() {
@@ -65,6 +70,19 @@ fn run_case(case: u64, rng: &mut Rng, rep: &mut Report) {
             r[0] = 1;
         }
     }
+    // positions without any observation (legal for CountMatrix::new and the file readers): with a
+    // zero pseudocount their frequencies are 0/0 = NaN on both strands alike
+    let mut empty_rows = false;
+    if rng.chance(0.12) {
+        for _ in 0..rng.range(1, 2) {
+            let i = rng.below(w);
+            for c in counts[i].iter_mut() {
+                *c = 0;
+            }
+        }
+        empty_rows = true;
+        rep.cover("class.position_without_observations");
+    }
     let mut dm = DenseMatrix::<u32, _>::new(w);
     for i in 0..w {
         for j in 0..5 {
@@ -73,6 +91,10 @@ fn run_case(case: u64, rng: &mut Rng, rep: &mut Report) {
     }
     let cm = CountMatrix::<Dna>::new(dm).unwrap();
     let pseudo = *rng.pick(&[0.0f32, 0.1, 0.5, 1.0]);
+    let nan_class = empty_rows && pseudo == 0.0;
+    if nan_class {
+        rep.cover("class.nan_frequencies");
+    }
     // strand-symmetric background (dyadic): bg[A]=bg[T]=a, bg[C]=bg[G]=c, 2a+2c=1
     // optionally a non-zero wildcard frequency n (2a + 2c + n = 1, all dyadic)
     let n = if rng.chance(0.3) { *rng.pick(&[0.125f32, 0.25, 0.0625]) } else { 0.0 };
@@ -119,15 +141,15 @@ fn run_case(case: u64, rng: &mut Rng, rep: &mut Report) {
         fail(rep, "c10.involution", "count matrix: rc(rc(x)) != x".into(), J::Null);
         return;
     }
-    if rfreq.reverse_complement() != freq {
+    if if nan_class { !same_cells(rfreq.reverse_complement().matrix(), freq.matrix()) } else { rfreq.reverse_complement() != freq } {
         fail(rep, "c10.involution", "frequency matrix: rc(rc(x)) != x".into(), J::Null);
         return;
     }
-    if rweight.reverse_complement() != weight {
+    if if nan_class { !same_cells(rweight.reverse_complement().matrix(), weight.matrix()) } else { rweight.reverse_complement() != weight } {
         fail(rep, "c10.involution", "weight matrix: rc(rc(x)) != x".into(), J::Null);
         return;
     }
-    if rscoring.reverse_complement() != scoring {
+    if if nan_class { !same_cells(rscoring.reverse_complement().matrix(), scoring.matrix()) } else { rscoring.reverse_complement() != scoring } {
         fail(rep, "c10.involution", "scoring matrix: rc(rc(x)) != x".into(), J::Null);
         return;
     }
@@ -178,7 +200,7 @@ fn run_case(case: u64, rng: &mut Rng, rep: &mut Report) {
             }
             Ok((sb, rr, a1, a2)) => {
                 rep.cover("check.involution_other_base");
-                if rr != sb {
+                if if nan_class { !same_cells(rr.matrix(), sb.matrix()) } else { rr != sb } {
                     fail(rep, "c10.involution", format!("scoring matrix in base {}: rc(rc(x)) != x under ==", base), J::Null);
                     return;
                 }
@@ -187,6 +209,51 @@ fn run_case(case: u64, rng: &mut Rng, rep: &mut Report) {
                         if !same_f32(a1.matrix()[i][s], a2.matrix()[i][s]) {
                             fail(rep, "c10.commutes", format!("base {}: WeightMatrix::from(x).rc()[{}][{}] = {} but WeightMatrix::from(x.rc()) has {}", base, i, s, a1.matrix()[i][s], a2.matrix()[i][s]), J::Null);
                             return;
+                        }
+                    }
+                }
+            }
+        }
+    }
+    // frequency matrices built by hand (FrequencyMatrix::new accepts rows summing to one within a
+    // tolerance: two-decimal rows summing to 0.99 / 1.00 / 1.01): whatever the constructor accepted
+    // must reverse-complement without a second opinion
+    {
+        let mut dmf = DenseMatrix::<f32, _>::new(w);
+        for i in 0..w {
+            let target = *rng.pick(&[99i32, 100, 100, 101]);
+            let a = rng.below(60) as i32;
+            let b = rng.below((target - a).max(1) as usize) as i32;
+            let c = rng.below((target - a - b).max(1) as usize) as i32;
+            let d = target - a - b - c;
+            let vals = [a, b, c, d];
+            for j in 0..4 {
+                dmf[i][j] = vals[j] as f32 / 100.0;
+            }
+            dmf[i][4] = 0.0;
+        }
+        if let Ok(Ok(fm)) = guard(|| lightmotif::pwm::FrequencyMatrix::<Dna>::new(dmf)) {
+            rep.cover("check.hand_built_frequency_rows");
+            match guard(|| {
+                let r1 = fm.reverse_complement();
+                let r2 = r1.reverse_complement();
+                (r1, r2)
+            }) {
+                Err(p) => {
+                    fail(rep, &format!("c10.panic:{}", panic_site(&p)), format!("panic in FrequencyMatrix::reverse_complement on a matrix the constructor accepted: {}", p), J::Null);
+                    return;
+                }
+                Ok((r1, r2)) => {
+                    if !same_cells(r2.matrix(), fm.matrix()) {
+                        fail(rep, "c10.involution", "hand-built frequency matrix: rc(rc(x)) != x".into(), J::Null);
+                        return;
+                    }
+                    for i in 0..w {
+                        for s in 0..5 {
+                            if !same_f32(r1.matrix()[i][s], fm.matrix()[w - 1 - i][COMP[s]]) {
+                                fail(rep, "c10.definition", format!("hand-built frequency rc[{}][{}] = {}, original[{}][{}] = {}", i, s, r1.matrix()[i][s], w - 1 - i, COMP[s], fm.matrix()[w - 1 - i][COMP[s]]), J::Null);
+                                return;
+                            }
                         }
                     }
                 }
@@ -230,7 +297,8 @@ fn run_case(case: u64, rng: &mut Rng, rep: &mut Report) {
         let kind = *rng.pick(&[MatKind::Finite, MatKind::SmallInt, MatKind::ZeroCounts, MatKind::FewValued]);
         crate::model::scoring::<Dna>(&gen_matrix(rng, 5, w, kind))
     };
-    for pssm in [&scoring, &arbitrary] {
+    let mirrored: Vec<&ScoringMatrix<Dna>> = if nan_class { vec![&arbitrary] } else { vec![&scoring, &arbitrary] };
+    for pssm in mirrored {
         let rows = cells_f32(pssm.matrix());
         if rows.iter().any(|r| r[4].is_finite()) {
             rep.cover("class.finite_wildcard_column");
